@@ -3,7 +3,7 @@
 //! mode, real threads and real loopback sockets — and must show the same outcome class: `run`
 //! returns after the signal, the port can be bound again, nothing truncated.
 
-use crate::props::c20::{parse_responses, Conn};
+use crate::props::c20::{parse_responses, Conn, BIG};
 use crate::report::Stats;
 use humphrey::http::{Request, Response, StatusCode};
 use humphrey::stream::Stream;
@@ -26,13 +26,17 @@ pub fn replay(p: usize, bind_ip: &str, conns: &[Conn]) -> Result<String, String>
     let (gate_tx, gate_rx) = std::sync::mpsc::channel::<()>();
     let gate_rx = Arc::new(Mutex::new(gate_rx));
     let g2 = gate_rx.clone();
+    let entered = Arc::new(Mutex::new(Vec::<u16>::new()));
+    let e2 = entered.clone();
     let app: App<()> = App::new_with_config(p, ())
         .with_shutdown(rx)
         .with_stateless_route("/", |_r: Request| Response::new(StatusCode::OK, b"0123456789abcdefghijklmnopqrstuvwxyz-body"))
-        .with_stateless_route("/slow", move |_r: Request| {
+        .with_stateless_route("/slow", move |r: Request| {
+            e2.lock().unwrap().push(r.address.port);
             let _ = g2.lock().unwrap().recv();
             Response::new(StatusCode::OK, b"late")
         })
+        .with_stateless_route("/big", |_r: Request| Response::new(StatusCode::OK, vec![b'B'; 32 * BIG]))
         .with_websocket_route("/ws", |_r: Request, mut stream: Stream, _s: Arc<()>| {
             let _ = stream.write_all(b"HTTP/1.1 101 Switching Protocols\r\n\r\n");
             let mut buf = [0u8; 16];
@@ -60,6 +64,8 @@ pub fn replay(p: usize, bind_ip: &str, conns: &[Conn]) -> Result<String, String>
     }
     let received: Arc<Mutex<Vec<Vec<u8>>>> = Arc::new(Mutex::new(vec![vec![]; conns.len()]));
     let mut socks = vec![];
+    let mut ports = vec![];
+    let start_reading = Arc::new(std::sync::atomic::AtomicBool::new(false));
     for (i, c) in conns.iter().enumerate() {
         let mut s = std::net::TcpStream::connect(&target).map_err(|e| format!("client connect: {}", e))?;
         let bytes: &[u8] = match c {
@@ -70,13 +76,20 @@ pub fn replay(p: usize, bind_ip: &str, conns: &[Conn]) -> Result<String, String>
             Conn::Long => b"GET /slow HTTP/1.1\r\nHost: x\r\nConnection: close\r\n\r\n",
             Conn::WebSocket => b"GET /ws HTTP/1.1\r\nHost: x\r\nUpgrade: websocket\r\nConnection: Upgrade\r\n\r\n",
             Conn::TwoRequests => b"GET / HTTP/1.1\r\nHost: x\r\nConnection: keep-alive\r\n\r\n",
+            Conn::BigResponse => b"GET /big HTTP/1.1\r\nHost: x\r\nConnection: close\r\n\r\n",
         };
         let _ = s.write_all(bytes);
+        ports.push(s.local_addr().map(|a| a.port()).unwrap_or(0));
+        let (sr, late_reader) = (start_reading.clone(), *c == Conn::BigResponse);
         let rc = received.clone();
         let mut s2 = s.try_clone().unwrap();
         let _ = s2.set_read_timeout(Some(Duration::from_millis(1500)));
         std::thread::spawn(move || {
-            let mut buf = [0u8; 1024];
+            // a response that is "being written" at the signal: its client reads nothing until run() has returned
+            while late_reader && !sr.load(std::sync::atomic::Ordering::SeqCst) {
+                std::thread::sleep(Duration::from_millis(2));
+            }
+            let mut buf = vec![0u8; 1 << 16];
             while let Ok(n) = s2.read(&mut buf) {
                 if n == 0 {
                     break;
@@ -108,15 +121,31 @@ pub fn replay(p: usize, bind_ip: &str, conns: &[Conn]) -> Result<String, String>
     }
     drop(rebind);
     drop(gate_tx);
+    start_reading.store(true, std::sync::atomic::Ordering::SeqCst);
+    // requests that were being handled (slow handler entered) or answered (big response) at the signal: their
+    // responses must still arrive whole; bounded wait
+    let entered = entered.lock().unwrap().clone();
+    let owed: Vec<usize> = (0..conns.len()).filter(|&i| (conns[i] == Conn::Long && entered.contains(&ports[i])) || (conns[i] == Conn::BigResponse && p > conns[..i].iter().filter(|k| matches!(k, Conn::JustConnected | Conn::HalfRequest | Conn::KeepAliveIdle | Conn::WebSocket | Conn::TwoRequests)).count())).collect();
+    let until = Instant::now() + Duration::from_secs(5);
+    loop {
+        let done = owed.iter().all(|&i| parse_responses(&received.lock().unwrap()[i]) == (1, 0));
+        if done || Instant::now() > until {
+            break;
+        }
+        std::thread::sleep(Duration::from_millis(5));
+    }
     std::thread::sleep(Duration::from_millis(40));
     for (i, c) in conns.iter().enumerate() {
         let out = received.lock().unwrap()[i].clone();
         if *c == Conn::WebSocket {
             continue;
         }
-        let (_n, leftover) = parse_responses(&out);
+        let (n, leftover) = parse_responses(&out);
         if leftover > 0 {
             return Err(format!("connection {} ({:?}) received a truncated response", i, c));
+        }
+        if owed.contains(&i) && n != 1 {
+            return Err(format!("connection {} ({:?}): a request that was being handled at the signal got {} responses", i, c, n));
         }
     }
     drop(socks);
@@ -130,6 +159,8 @@ pub fn run_replays(st: &mut Stats, quick: bool) {
         scns.push((1, "127.0.0.1", vec![k]));
         scns.push((2, "0.0.0.0", vec![k]));
     }
+    scns.push((1, "127.0.0.1", vec![Conn::BigResponse]));
+    scns.push((2, "0.0.0.0", vec![Conn::BigResponse, Conn::Long]));
     scns.push((1, "127.0.0.1", vec![Conn::Long, Conn::Short]));
     scns.push((2, "127.0.0.1", vec![Conn::Long, Conn::Long]));
     scns.push((2, "127.0.0.1", vec![Conn::KeepAliveIdle, Conn::KeepAliveIdle]));
